@@ -9,6 +9,22 @@ CHECKS = {
    technique='stateless model checking of the real scheduler code: exhaustive delay-bounded enumeration of thread interleavings under a controlled scheduler',
    text='Every execution of the real process.c/compress.c/expand.c task schedulers with at most d deviations (quick d=2, thorough d=3 plus one spurious condition wake-up) from three canonical schedulers, for compression (default and --sequential), decompression (stock and tiny I/O granularities) and -cdf copying, W<=2 (thorough 3), over a family of input shapes; deadlock = no enabled thread, livelock = horizon; slot counters checked at every scheduling point, queue overruns by the assertions, end state by primary_thread assertions, block order by exact output comparison.',
    note='Trusted: the 1100-line vsched scheduler/signal model; lbzip2 data-race freedom (C12) so that scheduling at synchronisation points is enough; bounds W<=3, deviations as reported in the evidence.'),
+ 'C03': dict(cat='model_checking', engine='lbzx (E1/E2) + real binary', ref='DESIGN.md §5 C03',
+   technique='stateless model checking: exhaustive delay-bounded enumeration of thread interleavings and of read()/write() fragmentation answers on the real code, one-outcome oracle',
+   text='For each (input, level, mode) one expected compressed byte string is fixed; every execution with at most d deviations (scheduling choices and short read()/write() answers share the budget; quick d=2, thorough d=3) for W in 1..3 (4), whole-run fragmentation policies, and the real binary on stdout / FILE operand / fragmented pipe must reproduce exactly that string.',
+   note='Trusted: vsched; libbz2 judging that the expected string is a valid compression; bounds as reported.'),
+ 'C12': dict(cat='model_checking', engine='lbzx tsan variant', ref='DESIGN.md §5 C12',
+   technique='ThreadSanitizer as per-execution oracle inside exhaustive delay-bounded schedule enumeration under the controlled scheduler',
+   text='All four pipelines (compress, --sequential, decompress incl. tiny granularities/bad CRC/-t, -cdf copy), W up to 3 (4), every execution with at most d deviations (quick 1, thorough 2) from P0/P1/P2 of a ThreadSanitizer build whose detector is told exactly lbzip2\'s own mutex/create/join edges; any race report is a violation.',
+   note='Trusted: ThreadSanitizer happens-before detection with finite history; SC interleavings; execution boundaries of the in-process executor are barriers.'),
+ 'C13': dict(cat='model_checking', engine='lbzx with malloc accounting', ref='DESIGN.md §5 C13',
+   technique='invariant checking on every state of exhaustively enumerated bounded schedules: live heap bytes <= linear bound(W)',
+   text='Live heap bytes are compared at every scheduling point of every execution with <= d deviations (quick 1, thorough 2) with the linear-in-W bound the slot discipline allows (computed from the running program\'s slot counts and buffer sizes); slot totals must stay within 2x the documented per-worker constants; canonical runs on inputs growing to 640 MB decoded (zero bombs) and 96 chunks must not raise the peak once the pipeline is saturated.',
+   note='Live heap bytes stand in for RSS; thread stacks fixed; fragmentation not modelled.'),
+ 'C19': dict(cat='model_checking', engine='lbzx (E1/E2)', ref='DESIGN.md §5 C19',
+   technique='stateless model checking of the 3-thread copy pipeline: exhaustive enumeration of interleavings and short-read answers up to a deviation bound',
+   text='Every execution with <= d deviations (quick 2 for all inputs and 3 for the small/header inputs, thorough 4) of main/reader/writer scheduling and short reads, for all lengths 0..12 and around 1x/2x/3x the 64 KiB buffer, with every near-miss of the BZh[1-9] magic as prefix; output must equal the input, status 0, stderr empty, termination; inputs that do start with a stream header must end exactly as under plain -d.',
+   note='Pipe fragmentation is modelled as read() returning fewer bytes than asked; vsched trusted.'),
 }
 
 NOT_YET = 'check not built yet in this round (work in progress, see DESIGN.md §10)'
